@@ -10,7 +10,10 @@ import (
 	"encoding/json"
 	"fmt"
 	"os"
+	"time"
 )
+
+func sleepNs(d int64) { time.Sleep(time.Duration(d)) }
 
 type input struct {
 	Name string  `json:"name"`
@@ -125,3 +128,7 @@ func StorageCrashAfter(n int) {}
 
 // StorageWrites returns the number of mutating storage calls made so far (engine only).
 func StorageWrites() int { return 0 }
+
+// AdvanceClock lets time pass: the engine advances its virtual clock by d nanoseconds,
+// the native build sleeps.
+func AdvanceClock(d int64) { sleepNs(d) }
